@@ -64,6 +64,15 @@ impl It64 for Borrowed {
     fn size_hint(&self) -> (usize, Option<usize>) {
         self.0.size_hint()
     }
+    fn fold_fwd(self: Box<Self>) -> (u64, u64) {
+        self.0.fold((0u64, FNV_BASIS), |(n, h), v| (n + 1, fnv_step(h, v)))
+    }
+    fn fold_rev(self: Box<Self>) -> (u64, u64) {
+        self.0.rfold((0u64, FNV_BASIS), |(n, h), v| (n + 1, fnv_step(h, v)))
+    }
+    fn exact_len(&self) -> Option<usize> {
+        None // `treemap::Iter` is not an ExactSizeIterator
+    }
 }
 
 impl It64 for Owned {
@@ -80,6 +89,15 @@ impl It64 for Owned {
     }
     fn has_advance(&self) -> bool {
         false
+    }
+    fn fold_fwd(self: Box<Self>) -> (u64, u64) {
+        self.0.fold((0u64, FNV_BASIS), |(n, h), v| (n + 1, fnv_step(h, v)))
+    }
+    fn fold_rev(self: Box<Self>) -> (u64, u64) {
+        self.0.rfold((0u64, FNV_BASIS), |(n, h), v| (n + 1, fnv_step(h, v)))
+    }
+    fn exact_len(&self) -> Option<usize> {
+        Some(self.0.len())
     }
 }
 
@@ -268,6 +286,48 @@ pub fn handle(st: &mut State, toks: &[&str]) -> HResult {
                 h = fnv_step(h, v);
             }
             Some(format!("n={} h={:016x}", n, h))
+        }
+        ["jfold", k] => {
+            let it = st.jt[slot('j', k)?].take()?;
+            let (n, h) = it.fold_fwd();
+            Some(format!("n={} h={:016x}", n, h))
+        }
+        ["jrfold", k] => {
+            let it = st.jt[slot('j', k)?].take()?;
+            let (n, h) = it.fold_rev();
+            Some(format!("n={} h={:016x}", n, h))
+        }
+        ["jlen", k] => Some(match j!(k).exact_len() {
+            Some(n) => n.to_string(),
+            None => "na".to_string(),
+        }),
+        ["tdebug", d] => {
+            let s = format!("{:?}", st.tm[slot('t', d)?].as_ref()?);
+            let form = if s.contains(" values between ") { "summary" } else { "list" };
+            let mut h = FNV_BASIS;
+            for &x in s.as_bytes() {
+                h = fnv_step(h, x as u64);
+            }
+            Some(format!("ok n={} h={:016x} f={}", s.len(), h, form))
+        }
+        ["tclone_from", d, s] => {
+            let src = st.tm[slot('t', s)?].as_ref()?.clone();
+            st.tm[slot('t', d)?].as_mut()?.clone_from(&src);
+            Some("ok".to_string())
+        }
+        ["tdefault", d] => {
+            st.tm[slot('t', d)?] = Some(RoaringTreemap::default());
+            Some("ok".to_string())
+        }
+        ["textend_ref", d, vs @ ..] => {
+            let vs: Vec<u64> = nats(vs)?;
+            t!(d).extend(vs.iter());
+            Some("ok".to_string())
+        }
+        ["tfrom_iter_ref", d, vs @ ..] => {
+            let vs: Vec<u64> = nats(vs)?;
+            st.tm[slot('t', d)?] = Some(vs.iter().collect());
+            Some("ok".to_string())
         }
         ["jdrain_rev", k] => {
             let it = j!(k);
